@@ -206,4 +206,7 @@ def obligations(tier, rng):
                 out.append(ob('C09', 'ct', 'ct/%s/p=%s/out=%s' % (mode, text(d), text(m)), defs=[['p', d]], main=m,
                               ns=[2, 2] if two else [3 if quick else 4], mode=mode, style='sub', max_paths=30000, wall=900))
     seen = set()
-    return [o for o in out if not (o['oid'] in seen or seen.add(o['oid']))]
+    res_ = [o for o in out if not (o['oid'] in seen or seen.add(o['oid']))]
+    from .. import core as _core
+    res_ = res_ + _core.make_twins(res_, [('dt/online/sub/p=once[0,1](x)/out=(p) and (z)', 'window'), ('dt/offline/sub/p=prev(x)/out=(p) and (z)', 'pad')]) + _core.make_forkmode(res_, [])
+    return res_
